@@ -1047,6 +1047,11 @@ def search(cases, tier, rng=None):
             undecided.append({"case": strip(c), "why": "escalated run: %s" % b["status"]})
             continue
         e = st[0]                   # innermost open loop on the stack: the one that is spinning
+        if (e.get("iterations") or 0) < 10 * max(53, int(c.get("prec", 53))):
+            # evidence rule (see term_dynamic.search): too few iterations to tell slow convergence from divergence
+            undecided.append({"case": strip(c), "why": "escalated run: no result within %.1f s after only %s iterations (< 10*prec) of the "
+                              "%s-class loop at %s: slow iterations, non-termination not shown" % (c["tbudget"], e.get("iterations"), e["cls"], e["at"])})
+            continue
         mod = e["file"].replace(".py", "").replace("/", ".")
         site = "%s.%s[loop@%d]" % (mod, e["func"], e["line"])
         kw = c.get("kwargs")
